@@ -22,6 +22,13 @@
  *   <id> phd <pre> <rep> <n> <mid> <rep2> <n2> <tail> <trail>   parse pre ++ rep^n ++ mid ++ rep2^n2 ++ tail
  *   <id> gw <script>               generic tree through thrift_write_*  -> <id> <status> <hex>
  *   <id> gr <hex>                  generic tree through thrift_read_*   -> <id> <status> <consumed> <json tree>
+ *   --- C08 (decoder safety on arbitrary bytes); entry = fm | ph | gr (thrift_read_* walk) | sk (thrift_skip of a struct)
+ *   <id> raw <entry> <hex>                          one call on an exact-size heap copy -> <id> <status> <consumed|-1>
+ *   <id> bomb <entry> <pre> <rep> <n> <post>         one call on pre ++ rep^n ++ post      -> <id> <status> <consumed|-1> <size>
+ *   <id> fz <entry> <hex base> <classes>             every mutant of MC_ThriftFuzz!Mutants(base) of the classes in
+ *        <classes> (T truncations, S substitutions, I varint inflations, A appended byte), one call each
+ *        -> <id> <calls> <ok> <err> <max over ok calls of consumed - size | na>
+ *        with FZ_VERBOSE set, "M <class> <pos> <arg>" is printed (flushed) before every call
  * flags: a string of letters; 'N' = represent empty binaries / empty lists by NULL pointers.
  * JSON dump = the abstract record of ParquetThrift (integers as 8 two's complement bytes, strings
  * as byte arrays, optionals as [] / [v]); a NULL required string is printed as [-1].
@@ -389,6 +396,8 @@ static void dump_ph(const parquet_page_header_t* h) {
 /* ------------------------------------------------------------------ parse + dump */
 static uint8_t* exact_copy(const uint8_t* p, size_t n) { uint8_t* b = malloc(n ? n : 1); if (n) memcpy(b, p, n); return b; }
 
+static int g_fuzz;            /* C08 mode: no n-1 probe */
+static int g_last_st; static long g_last_used;
 /* prints " <status> <consumed> <json>" */
 static void parse_fm(const uint8_t* bytes, size_t n) {
     carquet_arena_t arena; carquet_error_t err; memset(&err, 0, sizeof(err));
@@ -399,7 +408,7 @@ static void parse_fm(const uint8_t* bytes, size_t n) {
     long consumed = 0;
     if (st == CARQUET_OK) {
         consumed = (long)n;
-        if (n > 0) {
+        if (n > 0 && !g_fuzz) {
             carquet_arena_t a2; parquet_file_metadata_t md2; carquet_error_t e2; memset(&e2, 0, sizeof(e2));
             uint8_t* in2 = exact_copy(bytes, n - 1);
             if (carquet_arena_init(&a2) == CARQUET_OK) {
@@ -409,6 +418,7 @@ static void parse_fm(const uint8_t* bytes, size_t n) {
             free(in2);
         }
     }
+    g_last_st = (int)st; g_last_used = -1;
     printf(" %d %ld ", (int)st, consumed);
     if (st == CARQUET_OK) dump_fm(&md); else fputs("{}", stdout);
     carquet_arena_destroy(&arena);
@@ -422,6 +432,7 @@ static void parse_ph(const uint8_t* bytes, size_t n, const uint8_t* trail, size_
     if (nt) memcpy(in + n, trail, nt);
     size_t used = 0;
     carquet_status_t st = parquet_parse_page_header(in, n + nt, &h, &used, &err);
+    g_last_st = (int)st; g_last_used = (long)used;
     printf(" %d %zu ", (int)st, used);
     if (st == CARQUET_OK) dump_ph(&h); else fputs("{}", stdout);
     free(in);
@@ -537,7 +548,104 @@ static uint8_t* build_deep(vh_case_t* c, int at, size_t* out_n) {
     return b;
 }
 
+/* ------------------------------------------------------------------ C08: arbitrary bytes */
+static FILE* g_null;
+/* silent walk over a struct with the thrift_read_* primitives; below depth 64 the rest is skipped */
+static void q_value(thrift_decoder_t* d, thrift_type_t t, int depth);
+static void q_struct(thrift_decoder_t* d, int depth) {
+    thrift_read_struct_begin(d);
+    thrift_type_t ft; int16_t fid;
+    while (d->status == CARQUET_OK && thrift_read_field_begin(d, &ft, &fid)) {
+        if (d->status != CARQUET_OK) break;
+        q_value(d, ft, depth + 1);
+    }
+    thrift_read_struct_end(d);
+}
+static void q_value(thrift_decoder_t* d, thrift_type_t t, int depth) {
+    if (d->status != CARQUET_OK) return;
+    if (depth > 64) { thrift_skip(d, t); return; }
+    switch (t) {
+        case THRIFT_TYPE_TRUE: case THRIFT_TYPE_FALSE: (void)thrift_read_bool(d); break;
+        case THRIFT_TYPE_BYTE: (void)thrift_read_byte(d); break;
+        case THRIFT_TYPE_I16: (void)thrift_read_i16(d); break;
+        case THRIFT_TYPE_I32: (void)thrift_read_i32(d); break;
+        case THRIFT_TYPE_I64: (void)thrift_read_i64(d); break;
+        case THRIFT_TYPE_DOUBLE: (void)thrift_read_double(d); break;
+        case THRIFT_TYPE_BINARY: { int32_t n = 0; const uint8_t* p = thrift_read_binary(d, &n);
+            volatile uint8_t sink = 0; if (p) for (int32_t i = 0; i < n; i++) sink ^= p[i]; (void)sink; break; }
+        case THRIFT_TYPE_UUID: { uint8_t u[16]; thrift_read_uuid(d, u); break; }
+        case THRIFT_TYPE_LIST: case THRIFT_TYPE_SET: {
+            thrift_type_t et; int32_t n;
+            if (t == THRIFT_TYPE_LIST) thrift_read_list_begin(d, &et, &n); else thrift_read_set_begin(d, &et, &n);
+            for (int32_t i = 0; i < n && d->status == CARQUET_OK; i++) q_value(d, et, depth + 1);
+            break; }
+        case THRIFT_TYPE_MAP: {
+            thrift_type_t kt, vt; int32_t n;
+            thrift_read_map_begin(d, &kt, &vt, &n);
+            for (int32_t i = 0; i < n && d->status == CARQUET_OK; i++) { q_value(d, kt, depth + 1); q_value(d, vt, depth + 1); }
+            break; }
+        case THRIFT_TYPE_STRUCT: q_struct(d, depth); break;
+        default: thrift_skip(d, t); break;     /* STOP / invalid type ids: let the library decide */
+    }
+}
+/* one call of an entry point on an exact-size heap copy; *used = -1 when the entry has no such output */
+static void run_entry(const char* entry, const uint8_t* p, size_t n, int* st, long* used) {
+    if (entry[0] == 'f' || entry[0] == 'p') {
+        FILE* save = stdout; stdout = g_null;           /* the dump still reads every parsed field */
+        if (entry[0] == 'f') parse_fm(p, n); else parse_ph(p, n, NULL, 0);
+        stdout = save;
+        *st = g_last_st; *used = g_last_used;
+        return;
+    }
+    uint8_t* in = exact_copy(p, n);
+    thrift_decoder_t dec; thrift_decoder_init(&dec, in, n);
+    if (entry[0] == 'g') q_struct(&dec, 0); else thrift_skip(&dec, THRIFT_TYPE_STRUCT);
+    *st = (int)dec.status; *used = (long)dec.reader.pos;
+    free(in);
+}
+static const uint8_t FIXED_SUBS[] = { 0x00, 0x01, 0x0f, 0x10, 0x15, 0x19, 0x1c, 0x7f, 0x80, 0xf0, 0xff };
+static const uint8_t INFL0[] = { 0x7f }, INFL1[] = { 0xff, 0xff, 0xff, 0x07 }, INFL2[] = { 0xff, 0xff, 0xff, 0x0f },
+    INFL3[] = { 0xff, 0xff, 0xff, 0xff, 0xff, 0xff, 0xff, 0xff, 0x01 }, INFL4[] = { 0xff, 0xff, 0xff, 0xff, 0xff, 0xff, 0xff, 0xff, 0xff, 0xff };
+static const uint8_t* INFL[] = { INFL0, INFL1, INFL2, INFL3, INFL4 };
+static const size_t INFL_N[] = { 1, 4, 4, 9, 10 };
+typedef struct { const char* entry; long calls, ok, err, maxex; int have; int verbose; } fz_t;
+static void fz_call(fz_t* f, const uint8_t* p, size_t n, char cls, size_t pos, unsigned arg) {
+    if (f->verbose) { printf("M %c %zu %u\n", cls, pos, arg); fflush(stdout); }
+    int st; long used;
+    run_entry(f->entry, p, n, &st, &used);
+    f->calls++;
+    if (st == 0) { f->ok++; if (used >= 0) { long ex = used - (long)n; if (!f->have || ex > f->maxex) f->maxex = ex; f->have = 1; } }
+    else f->err++;
+}
+static void do_fz(vh_case_t* c) {
+    size_t n; uint8_t* base = vh_unhex(c->tok[3], &n);
+    const char* classes = c->tok[4];
+    fz_t f = { c->tok[2], 0, 0, 0, 0, 0, getenv("FZ_VERBOSE") != NULL };
+    uint8_t* m = malloc(n + 16);
+    if (strchr(classes, 'T')) for (size_t k = 0; k < n; k++) fz_call(&f, base, k, 'T', k, 0);
+    if (strchr(classes, 'S')) for (size_t i = 0; i < n; i++) {
+        uint8_t b = base[i]; uint8_t seen[256]; memset(seen, 0, sizeof(seen)); seen[b] = 1;
+        uint8_t cand[11 + 16 + 4]; int nc = 0;
+        for (int k = 0; k < 11; k++) cand[nc++] = FIXED_SUBS[k];
+        for (int t = 0; t < 16; t++) cand[nc++] = (uint8_t)((b & 0xf0) | t);
+        cand[nc++] = (uint8_t)(b & 0x0f); cand[nc++] = (uint8_t)((b & 0x0f) | 0x10);
+        cand[nc++] = (uint8_t)((b & 0x0f) | 0xe0); cand[nc++] = (uint8_t)((b & 0x0f) | 0xf0);
+        memcpy(m, base, n);
+        for (int k = 0; k < nc; k++) { if (seen[cand[k]]) continue; seen[cand[k]] = 1; m[i] = cand[k]; fz_call(&f, m, n, 'S', i, cand[k]); }
+    }
+    if (strchr(classes, 'I')) for (size_t i = 0; i < n; i++) for (int e = 0; e < 5; e++) {
+        memcpy(m, base, i); m[i] = (uint8_t)(base[i] | 0x80); memcpy(m + i + 1, INFL[e], INFL_N[e]);
+        memcpy(m + i + 1 + INFL_N[e], base + i + 1, n - i - 1);
+        fz_call(&f, m, n + INFL_N[e], 'I', i, (unsigned)e);
+    }
+    if (strchr(classes, 'A')) for (int k = 0; k < 11; k++) { memcpy(m, base, n); m[n] = FIXED_SUBS[k]; fz_call(&f, m, n + 1, 'A', n, FIXED_SUBS[k]); }
+    printf("%s %ld %ld %ld ", c->tok[0], f.calls, f.ok, f.err);
+    if (f.have) printf("%ld", f.maxex); else fputs("na", stdout);
+    free(m); free(base);
+}
+
 int main(void) {
+    g_null = fopen("/dev/null", "w");
     vh_case_t c = {0};
     while (vh_next(&c)) {
         if (c.n < 2) continue;
@@ -571,12 +679,27 @@ int main(void) {
         } else if (!strcmp(op, "phd")) {
             size_t n, nt; uint8_t* b = build_deep(&c, 2, &n); uint8_t* tr = vh_unhex(c.tok[9], &nt);
             printf("%s", c.tok[0]); parse_ph(b, n, tr, nt); free(b); free(tr);
-        } else if (!strcmp(op, "gw")) do_gw(&c);
+        } else if (!strcmp(op, "raw") || !strcmp(op, "bomb")) {
+            size_t n; uint8_t* b; g_fuzz = 1;
+            if (op[0] == 'r') b = vh_unhex(c.tok[3], &n);
+            else {
+                size_t np, nr, nq; uint8_t* pre = vh_unhex(c.tok[3], &np); uint8_t* rep = vh_unhex(c.tok[4], &nr);
+                size_t k = (size_t)vh_ull(c.tok[5]); uint8_t* post = vh_unhex(c.tok[6], &nq);
+                n = np + nr * k + nq; b = malloc(n ? n : 1);
+                memcpy(b, pre, np); for (size_t i = 0; i < k; i++) memcpy(b + np + i * nr, rep, nr); memcpy(b + np + nr * k, post, nq);
+                free(pre); free(rep); free(post);
+            }
+            int st; long used; run_entry(c.tok[2], b, n, &st, &used);
+            printf("%s %d %ld %zu", c.tok[0], st, used, n);
+            free(b); g_fuzz = 0;
+        } else if (!strcmp(op, "fz")) { g_fuzz = 1; do_fz(&c); g_fuzz = 0; }
+        else if (!strcmp(op, "gw")) do_gw(&c);
         else if (!strcmp(op, "gr")) do_gr(&c);
         else printf("%s ERR unknown-op", c.tok[0]);
         vh_end();
     }
     vh_finish(&c);
     free(g_ptrs);
+    if (g_null) fclose(g_null);
     return 0;
 }
